@@ -9,7 +9,7 @@ _spec = importlib.util.spec_from_file_location("_gc", os.path.join(os.path.dirna
 G = importlib.util.module_from_spec(_spec)
 _spec.loader.exec_module(G)
 
-C44_SECTIONS = {60, 61}
+C44_SECTIONS = {60, 61, 62, 63}
 KEY = "c44-nonphy-parent-starvation"
 
 COQ_FILES = ["Gen/MetaConsts.v", "Meta/SMap.v", "Meta/Model.v", "Meta/Spec.v", "Meta/Check.v", "Meta/SMapProofs.v",
@@ -22,34 +22,40 @@ META = {
     "design_ref": "5/C44",
     "coq_targets": ["Props/Properties_C44.vo", "GC/Check.vo"],
     "coq_files": COQ_FILES,
-    "theorems": ["C44_pass_progress_partial", "C44_garbage_eventually_partial", "C44_delete_removes_all",
-                 "C44_eventually_refuted_nonphy_parent"],
+    "theorems": ["C44_eventually_partial", "C44_pass_progress", "C44_garbage_eventually", "C44_expired_eventually",
+                 "C44_delete_removes_all", "C44_eventually_refuted_nonphy_parent"],
     "technique": "Coq proof by a decreasing measure (buckets + stored headers + garbage keys) over all well-formed shard states and all "
                  "batch sizes >= 1 on the Gallina model of removeGarbage / collectExpiredObjects / GetGarbage / deleteObjs built on the "
                  "metabase model of C01 + differential correspondence with a real engine holding one real shard, drained by repeated "
                  "epoch advances and GC passes with batch sizes below the garbage volume + executable oracles for the final state",
-    "level_text": "Proved for every shard state with well-formed metabase part holding only objects without parent/split/EC fields and every "
-                  "batch size >= 1: a GC pass never adds a bucket, header or garbage key, and either strictly decreases their number or "
-                  "leaves every garbage list empty (C44_pass_progress_partial); hence after at most size+1 passes no garbage key and no "
-                  "removed container is left (C44_garbage_eventually_partial) — this covers garbage-marked objects, objects of removed "
-                  "containers (bucket dropped once empty) and tombstoned objects (an accepted tombstone leaves a garbage key on its "
-                  "target); each delete removes header, garbage key and stored data together (C44_delete_removes_all). Refuted outside "
-                  "that fragment: with a non-physical parent entry heading the garbage list and batch size 1 the pass is a fixpoint and "
-                  "nothing is ever collected, in this and in later containers (C44_eventually_refuted_nonphy_parent, confirmed on the "
-                  "real shard on every run; known finding). Tied on every run: histories of puts, tombstones, locks, expirations, forced "
-                  "marks, container removals, then two rounds of (epoch advance; passes until two passes change nothing) on a real shard "
-                  "with batch sizes 1-5; every operation's result, metabase dump, GC epochs, Get/IsLocked/blob presence compared with the "
-                  "model; oracles: final state clean (no removed container, no garbage key, no stored expired unlocked object incl. "
-                  "tombstones and locks, no data without metadata) and everything that should have gone at the start of the drain is gone.",
-    "level_note": "partial: (1) the expired half of the statement (collectExpiredObjects proceeds batch by batch, marks the epoch processed "
-                  "only when nothing is left; one epoch advance after the garbage is drained is needed because a lock removed as garbage "
-                  "can unprotect an expired object after the epoch was already marked processed) and the persistence argument are NOT proved "
-                  "in Coq; they are checked by oracles 60/61 on the drained real shards on every run; (2) ticker fairness / the event "
-                  "goroutine are abstracted: passes and new-epoch events are driven synchronously through hooks; (3) premise excluding "
-                  "persistently failing deletes: the model has no failing component calls (a failing metabase Delete retries the same "
-                  "batch forever; a failing BLOB delete leaves data without metadata) — not exercised; (4) fragment without family relations, "
-                  "outside it the known finding c44-nonphy-parent-starvation. Trusted: Coq kernel + vm_compute, hand-written model (tied), "
-                  "bbolt as ordered map, fstree as address->presence, Go harness, Python driver; 61-bit digest per step.",
+    "level_text": "Proved for every shard state with well-formed metabase part holding only objects without parent/split/EC fields, in which "
+                  "every stored tombstoned object carries a garbage key (what an accepted tombstone leaves), every batch size >= 1 and every "
+                  "epoch e' beyond the GC's current and processed epochs (C44_eventually_partial): there are n1, n2 such that after n1 passes, "
+                  "one epoch advance to e' (epoch source and GC event) and n2 further passes, no removed container and no garbage key is left, "
+                  "the epoch is marked processed, and NO stored object should go at e': none is tombstoned, garbage-marked, or expired "
+                  "without a live lock — tombstones and locks included. Ingredients: a pass never adds a bucket, header or garbage key and "
+                  "either strictly decreases their number or leaves every garbage list empty (C44_pass_progress), hence <= size+1 passes "
+                  "empty the garbage lists whatever the clocks say (C44_garbage_eventually); on a garbage-free synchronised shard every pass "
+                  "deletes at least one collected object (first tombstone bin, or the engine callback, which then cannot refuse) or finds "
+                  "nothing expired and marks the epoch processed without changing anything (C44_expired_eventually); each delete removes "
+                  "header, garbage key and stored data together (C44_delete_removes_all). Refuted outside the fragment: with a non-physical "
+                  "parent entry heading the garbage list and batch size 1 a pass is a fixpoint and nothing is ever collected, in this and in "
+                  "later containers (C44_eventually_refuted_nonphy_parent, reproduced on the real shard on every run; known finding). Tied on "
+                  "every run: histories of puts, tombstones, locks, expirations, forced marks, container removals, then two rounds of (epoch "
+                  "advance; passes until two passes change nothing) on a real shard with batch sizes 1-5; every step compared with the model; "
+                  "oracles on the drained shard: clean final state, everything that should have gone at the start of the drain is gone, and "
+                  "the two unproved premises on every state.",
+    "level_note": "partial: (1) the theorem speaks about the final state (nothing that should go is stored); that an object which should go at "
+                  "the START is the same object later (persistence) and that data never exists without metadata (so that 'no metadata' "
+                  "implies 'no data') are not proved — oracles 61/63 check them on every run; the premise ts_inv (stored tombstoned => "
+                  "garbage key) is proved to be preserved by GC passes but not by puts/marks — oracle 62 checks it on every state; (2) ticker "
+                  "fairness / the event goroutine are abstracted: passes and new-epoch events are driven synchronously through hooks; 'epochs "
+                  "advance' = one advance after the garbage lists are drained (needed: a lock removed as garbage can unprotect an expired "
+                  "object after the epoch was marked processed); (3) premise excluding persistently failing deletes: the model has no failing "
+                  "component calls (a failing metabase Delete retries the same batch forever; a failing BLOB delete leaves data without "
+                  "metadata) — not exercised; (4) fragment without family relations, outside it the known finding "
+                  "c44-nonphy-parent-starvation. Trusted: Coq kernel + vm_compute, hand-written model (tied), bbolt as ordered map, fstree as "
+                  "address->presence, Go harness, Python driver; 61-bit digest per step.",
     "trusted_base": ["Coq 8.16.1 kernel, vm_compute", "models Meta/Model.v + GC/Model.v hand-written, tied by differential check",
                      "harness/cmd/gc, hooks zz_verif_gc_shard.go / zz_verif_gc_engine.go / zz_verif_meta.go, props/_gc.py, lib/vlib.py",
                      "bbolt modelled as an ordered map with atomic transactions; fstree as address -> presence"],
